@@ -5,7 +5,8 @@ import z3
 from sx import core as S, env as E, pl, plh, families as F, wd
 
 PROPERTY = "C10"
-REGIONS = ["hash-arithmetic", "leaf-leaf-same-id", "leaf-compound-same-id", "compound-compound-same-id", "self-reference", "duplicate-child",
+REGIONS = ["hash-arithmetic", "hash-model-equal-definitions-hash-equal-bounds", "hash-model-equal-definitions-hash-equal-variable",
+           "hash-model-equal-definitions-hash-equal-atleast", "leaf-leaf-same-id", "leaf-compound-same-id", "compound-compound-same-id", "self-reference", "duplicate-child",
            "identical-sharing", "plain-tree", "accepted", "rejected"]
 BOUNDS = ("adversarial skeletons with <=3 occurrences of a reused id (leaf/leaf, leaf/compound, compound/compound), self references, duplicate children, "
           "diamond sharing, plain trees; boxes of the reused leaves and thresholds/signs of the reused compounds symbolic (boxes in [-32768,32767], "
@@ -55,9 +56,25 @@ def skeletons():
     return L
 
 
+def _quickify(sk):
+    """second and later symbolic occurrences of a reused leaf get the concrete box (1,2): every symbolic hashed integer multiplies the paths"""
+    import copy
+    s = copy.deepcopy(sk)
+
+    def go(n):
+        if n["t"] == "var" and n.get("occ", 0) >= 2 and isinstance(n.get("lo"), str):
+            n["lo"], n["hi"] = 1, 2
+        for c in n.get("ch", []):
+            go(c)
+    go(s)
+    return s
+
+
 def instantiations(tier, seed):
-    out = [{"part": "hash", "what": "bounds"}, {"part": "hash", "what": "variable"}]
+    out = [{"part": "hash", "what": "bounds"}, {"part": "hash", "what": "variable"}, {"part": "hash", "what": "atleast"}]
     for k, (cls, sk) in enumerate(skeletons()):
+        if tier == "quick":
+            sk = _quickify(sk)
         names = F.ALT_NAMES[(k + seed) % len(F.ALT_NAMES)] if cls == "plain-tree" else {}
         out.append({"part": "errors", "cls": cls, "model": F.rename(sk, names)})
     out.append({"kind": "mutant", "mutant": "accept_all", "part": "errors", "cls": "leaf-leaf-same-id", "model": skeletons()[0][1]})
@@ -98,9 +115,19 @@ def run_inst(spec, run):
         return _hash(ns, spec, run)
     model_spec = spec["model"]
 
+    nums = {0, 1}
+    for o in wd.occurrences(model_spec):
+        for k in ("lo", "hi", "value", "sign"):
+            if isinstance(o.get(k), int):
+                nums.add(o[k])
+        for v in (o.get("vb") or []):
+            nums.add(v)
+
     def fn(ctx):
         env = sym_env10(ctx, model_spec)
+        ctx.preregister(nums)
         err = e = None
+        S.HASH_MODE = "decided"
         try:
             m = pl.build(ns, model_spec, env)
             with E.inj_hash_shadow():
@@ -109,6 +136,8 @@ def run_inst(spec, run):
             err = "RecursionError"
         except Exception as ex:   # noqa
             err = "%s: %s" % (type(ex).__name__, ex)
+        finally:
+            S.HASH_MODE = "structural"
         return dict(env=env, e=e, err=err)
 
     def on_path(ctx, d):
@@ -149,6 +178,12 @@ def _hash(ns, spec, run):
             if spec["what"] == "bounds":
                 h1 = ns.puan.Bounds(l1, u1).__hash__()
                 h2 = ns.puan.Bounds(l2, u2).__hash__()
+            elif spec["what"] == "atleast":
+                v1, s1, v2, s2 = l1, ctx.int("s1", -1, 1), l2, ctx.int("s2", -1, 1)
+                ctx.assume(z3.And(s1.e != 0, s2.e != 0))
+                h1 = ns.pg.AtLeast(v1, ["a", "b"], variable="K", sign=s1).__hash__()
+                h2 = ns.pg.AtLeast(v2, ["a", "b"], variable="K", sign=s2).__hash__()
+                return dict(v=(l1, u1, l2, u2), h1=h1, h2=h2, at=(v1, s1, v2, s2))
             else:
                 h1 = ns.puan.variable("x", bounds=(l1, u1)).__hash__()
                 h2 = ns.puan.variable("x", bounds=(l2, u2)).__hash__()
@@ -162,9 +197,16 @@ def _hash(ns, spec, run):
         def conc(m):
             return {"env": {"lo_x1": S.model_int(m, l1), "hi_x1": S.model_int(m, u1), "lo_x2": S.model_int(m, l2), "hi_x2": S.model_int(m, u2)}}
         differ = z3.Or(l1.e != l2.e, u1.e != u2.e)
-        run.obligation(ctx, "different-definitions-equal-hash", z3.And(differ, E.hash_equal(d["h1"], d["h2"])), conc)
-        if ctx.query(E.hash_equal(d["h1"], d["h2"]))[0] != "sat":
-            raise S.HarnessError("hash model cannot even make equal definitions hash equal: vacuous")
+        if "at" in d:
+            v1, s1, v2, s2 = d["at"]
+            differ = z3.Or(v1.e != v2.e, s1.e != s2.e)
+
+            def conc(m):    # noqa
+                return {"env": {"v_K1": S.model_int(m, v1), "s_K1": S.model_int(m, s1), "v_K2": S.model_int(m, v2), "s_K2": S.model_int(m, s2)}}
+        # a collision is a CANDIDATE: it is a violation only if the real errors() then accepts the adversarial model built from it (replay decides)
+        run.obligation(ctx, "different-definitions-equal-hash", z3.And(differ, E.hash_equal(d["h1"], d["h2"])), conc, soft=True)
+        if ctx.query(E.hash_equal(d["h1"], d["h2"]))[0] == "sat":
+            run.region("hash-model-equal-definitions-hash-equal-" + spec["what"])
         run.sample({"hash_value_1": repr(d["h1"])[:300]})
 
     st = S.explore(fn, on_path, max_paths=100, wall=300)
